@@ -994,7 +994,7 @@ mod archives {
         // A case needs milliseconds of CPU time.  The worker is declared hanging when it has burnt C27_CASE_CPU
         // seconds of CPU time on one case (independent of the load of the machine), or after C27_CASE_TIMEOUT
         // seconds of wall-clock time.
-        let cpu_limit: f64 = std::env::var("C27_CASE_CPU").ok().and_then(|s| s.parse().ok()).unwrap_or(2.0);
+        let cpu_limit: f64 = std::env::var("C27_CASE_CPU").ok().and_then(|s| s.parse().ok()).unwrap_or(1.0);
         let secs = std::env::var("C27_CASE_TIMEOUT").ok().and_then(|s| s.parse().ok()).unwrap_or(180);
         let deadline = Instant::now() + Duration::from_secs(secs);
         let mut guard = AWORKER.lock().unwrap();
